@@ -201,8 +201,40 @@ class Crate:
         if not os.environ.get("ZSA_NO_NF"):
             from . import normal
             normal.normalize(j["hir"], self.consts)
+        if not os.environ.get("ZSA_NO_INLINE"):
+            known = _known_functions(self.name)
+            if known is not None:
+                from . import inline
+                self.inliner = inline.inline_new(j["hir"], self.fns, known)
         if not os.environ.get("ZSA_RAW_NAMES"):
             _label_locals(j["hir"])
+
+    def is_new(self, path):
+        """the function did not exist on the reviewed tree (tables/functions.json)"""
+        b = self.hir.get(path)
+        return bool(b and b.get("new_fn"))
+
+    def owners(self, path, _depth=0):
+        """reviewed functions on whose behalf `path` runs: itself when it existed on the reviewed tree, otherwise
+        the reviewed functions that (transitively) call it — a helper extracted later acts for its callers"""
+        if not self.is_new(path) or _depth > 4:
+            return [path]
+        if getattr(self, "_rcg", None) is None:
+            from . import flow
+            g = flow.call_graph(self)
+            r = {}
+            for caller, cs in g.items():
+                for c in cs:
+                    from .hir import strip_generics
+                    r.setdefault(strip_generics(c), set()).add(caller)
+            self._rcg = r
+        out = []
+        for c in sorted(self._rcg.get(path, ())):
+            if c != path:
+                for o in self.owners(c, _depth + 1):
+                    if o not in out:
+                        out.append(o)
+        return out or [path]
 
     def const_int(self, path):
         c = self.consts.get(path)
@@ -222,6 +254,19 @@ class Crate:
         """Unique fn/HIR body whose path ends with `suffix` (on a `::` boundary)."""
         hits = [p for p in self.hir if p == suffix or p.endswith("::" + suffix)]
         return hits
+
+
+FUNCTIONS_TABLE = os.path.join(VERIF, "tables", "functions.json")
+_FUNCS = None
+
+
+def _known_functions(crate_name):
+    """functions of the reviewed tree (tables/functions.json); None when the table does not exist"""
+    global _FUNCS
+    if _FUNCS is None:
+        _FUNCS = json.load(open(FUNCTIONS_TABLE)) if os.path.exists(FUNCTIONS_TABLE) else {}
+    v = _FUNCS.get(crate_name)
+    return set(v) if v is not None else None
 
 
 LOCALS_TABLE = os.path.join(VERIF, "tables", "locals.json")
